@@ -80,6 +80,8 @@ type Exec struct {
 	States  []*model.DB
 	idRng   *rng.R
 	exports map[string]map[string]model.Doc
+	// inCrashSettle: the op's post-state is being reconstructed after a crash
+	inCrashSettle bool
 	// Acks is called after every completed op (worker mode).
 	Acks func(i int)
 }
@@ -162,6 +164,7 @@ func (e *Exec) invoke(primary bool, f func() error) (err error) {
 		e.Ctl.CrashAfter = e.cur.CrashPost
 	}
 	e.Ctl.BeginOp()
+	e.checked("public-call")
 	defer func() {
 		if r := recover(); r != nil {
 			if _, ok := r.(wrap.CrashSignal); ok {
@@ -817,6 +820,9 @@ func (e *Exec) stepTwins(op *Op) {
 	deterministicSet := !(q.EffSkip() > 0 || q.EffLimit() >= 0)
 	for i := 1; i < len(results); i++ {
 		a, b := results[0], results[i]
+		if e.M.Colls[a.coll] == nil || e.M.Colls[b.coll] == nil {
+			continue
+		}
 		feats := map[string]string{"twinA": fmt.Sprint(e.M.Colls[a.coll].IndexFields()), "twinB": fmt.Sprint(e.M.Colls[b.coll].IndexFields())}
 		if (a.res.err == nil) != (b.res.err == nil) {
 			e.fail([]string{"C02"}, "C02/twin-error", fmt.Sprintf("%s: twin %q (indexes %v) err=%v, twin %q (indexes %v) err=%v", op.Brief(), a.coll, e.M.Colls[a.coll].IndexFields(), a.res.err, b.coll, e.M.Colls[b.coll].IndexFields(), b.res.err), feats)
@@ -1258,7 +1264,9 @@ func (e *Exec) settleCrash(op *Op, apply func()) {
 	}
 	firstV := e.V
 	e.V = nil
+	e.inCrashSettle = true
 	apply()
+	e.inCrashSettle = false
 	e.compareAll("", nil, "crash")
 	if e.V == nil {
 		e.probe("crash-op-present")
